@@ -112,6 +112,7 @@ POLYGONS = {
 
 POLYHEDRA = {
     'tetrahedron': ((0, 0, 0), (2, 0, 0), (0, 2, 0), (0, 0, 2)),
+
     'box': tuple(product((0, 2), (0, 1), (0, 1))),
     'cube': tuple(product((0, 2), (0, 2), (0, 2))),
     'prism': ((0, 0, 0), (2, 0, 0), (0, 2, 0), (0, 0, 1), (2, 0, 1), (0, 2, 1)),
@@ -135,16 +136,29 @@ POLYHEDRA = {
 }
 
 
+# bodies used by a few dedicated families only (not part of the catalogue that the thorough tiers sweep)
+EXTRA_POLYHEDRA = {
+    # two slabs of height 1 on z = 0, the second rotated about z (edges (2,3,0), (-3,2,0)): coplanar overlapping top and bottom faces
+    'slab-A': tuple((x, y, z) for x in (0, 3) for y in (-1, 4) for z in (0, 1)),
+    'slab-B': tuple((-1 + 2 * i - 3 * j, -1 + 3 * i + 2 * j, k) for i in (0, 1) for j in (0, 1) for k in (0, 1)),
+}
+EXTRA_POLYGONS = {
+    # two parallelograms in generic crossing position whose planes meet in a line perpendicular to x (direction (0,3,1))
+    'pgm-A': ((3, 2, 0), (1, 0, 3), (1, -3, 2), (3, -1, -1)),
+    'pgm-B': ((1, -1, 2), (3, 0, 0), (3, 3, 1), (1, 2, 3)),
+}
+
+
 def polygon(name):
-    return X.Pg(POLYGONS[name])
+    return X.Pg(POLYGONS[name] if name in POLYGONS else EXTRA_POLYGONS[name])
 
 
 def polyhedron(name):
-    return X.Ph(POLYHEDRA[name])
+    return X.Ph(POLYHEDRA[name] if name in POLYHEDRA else EXTRA_POLYHEDRA[name])
 
 
 def body(name):
-    return polygon(name) if name in POLYGONS else polyhedron(name)
+    return polygon(name) if (name in POLYGONS or name in EXTRA_POLYGONS) else polyhedron(name)
 
 
 QUICK_BODIES = ['triangle', 'hexagon', 'tetrahedron', 'cut-cube', 'unit-cube']
